@@ -37,6 +37,16 @@ func genC16Conc(rt *rapid.T) c16Case {
 		}
 		c.Threads = append(c.Threads, th)
 	}
+	// Some connections belong to clients that stopped reading: their queue fills up, and with the
+	// block strategy a Send from outside the hub loop waits for room - until the client hangs up,
+	// which must release it.
+	if lang.Spread(rt, "stall", 100) < 35 {
+		for i := 0; i < c.Conns; i++ {
+			if lang.Spread(rt, fmt.Sprintf("stalled%d", i), 2) == 0 {
+				c.Stalled = append(c.Stalled, i)
+			}
+		}
+	}
 	return c
 }
 
@@ -54,7 +64,22 @@ type c16Conc struct {
 }
 
 func (w *c16Conc) failf(key, f string, a ...interface{}) {
+	if key == "c16.deadlock" && w.c.HandlerSendsToStalled && w.c.Strategy == "block" {
+		// only the hand-written witness of the recorded finding has this shape
+		key = "c16.block-strategy-handler-send-wedges-hub"
+	}
 	w.fail.CompareAndSwap(nil, &evid.Failure{Key: key, Msg: fmt.Sprintf(f, a...)})
+}
+
+func (w *c16Conc) isStalled(conn *Connection) bool {
+	w.mu.Lock()
+	defer w.mu.Unlock()
+	for _, i := range w.c.Stalled {
+		if w.conns[i] == conn {
+			return true
+		}
+	}
+	return false
 }
 
 func (w *c16Conc) conn(i int) *Connection {
@@ -72,6 +97,12 @@ func (w *c16Conc) realActs(conn *Connection, key string, acts []c16Act) {
 		case "leave":
 			vh.LeaveRoom(c16Room(a.Room))
 		case "send":
+			if w.c.Strategy == "block" && w.isStalled(conn) && !w.c.HandlerSendsToStalled {
+				// recorded finding c16.block-strategy-send-from-handler-wedges-hub: with the block
+				// strategy a handler (hub loop) sending to a connection nobody reads waits for the
+				// very unregistration only the hub loop can perform
+				continue
+			}
 			vh.Send(fmt.Sprintf("send|%s|%s.%d", conn.ID, key, i))
 		case "bcast":
 			vh.Broadcast(fmt.Sprintf("bcast||%s.%d", key, i))
@@ -193,12 +224,48 @@ func runC16Conc(c c16Case) evid.Outcome {
 	stop := make(chan struct{})
 	var aux sync.WaitGroup
 	// the drainer plays every connection's WritePump and keeps what was delivered
+	stalled := map[int]bool{}
+	for _, i := range c.Stalled {
+		stalled[i] = true
+	}
+	var running atomic.Bool
+	running.Store(true)
 	drainAll := func() {
 		for i := 0; i < c.Conns; i++ {
+			if stalled[i] && running.Load() {
+				continue // nobody reads this one while the history runs
+			}
 			if conn := w.conn(i); conn != nil {
 				w.recv[i] = append(w.recv[i], c16Drain(conn)...)
 			}
 		}
+	}
+	// the clients that stopped reading hang up a little later (and whenever one of them gets
+	// connected after that): what was waiting for room in their queues has to be let go
+	if len(c.Stalled) > 0 {
+		aux.Add(1)
+		go func() {
+			defer aux.Done()
+			gone := map[int]bool{}
+			time.Sleep(2 * time.Millisecond)
+			for {
+				for _, i := range c.Stalled {
+					if conn := w.conn(i); conn != nil && !gone[i] {
+						gone[i] = true
+						select {
+						case w.hub.unregister <- conn:
+						case <-stop:
+							return
+						}
+					}
+				}
+				select {
+				case <-stop:
+					return
+				case <-time.After(500 * time.Microsecond):
+				}
+			}
+		}()
 	}
 	aux.Add(2)
 	go func() {
@@ -305,12 +372,15 @@ func runC16Conc(c c16Case) evid.Outcome {
 	}
 	close(stop)
 	aux.Wait()
+	running.Store(false)
 	if healthy {
 		drainAll()
 		w.final()
 		close(w.hub.shutdown)
 		<-hubDone
 	}
+	// (after a timeout the threads may still be running: take the lock they take)
+	w.mu.Lock()
 	for i, cl := range w.clients {
 		if cl != nil {
 			cl.Close()
@@ -319,6 +389,7 @@ func runC16Conc(c c16Case) evid.Outcome {
 			w.conns[i].conn.Close()
 		}
 	}
+	w.mu.Unlock()
 	if f := w.fail.Load(); f != nil {
 		return evid.Outcome{Fail: f}
 	}
